@@ -4615,6 +4615,10 @@ class ParameterizedMetaclass(type):
                 inherited = parameter
                 parameter = copy.copy(inherited)
                 parameter.owner = mcs
+                # The copy starts with the watchers registered so far but
+                # must not share the table itself: watchers registered on
+                # either class from now on concern that class only
+                parameter.watchers = {what: list(ws) for what, ws in inherited.watchers.items()}
                 _copied_in_edit_constant(inherited, parameter)
                 type.__setattr__(mcs,attribute_name,parameter)
                 # This class (and its subclasses) now has its own Parameter
